@@ -1,4 +1,5 @@
 """C15 — time rotation separates statements at the configured points: ordering / exhaustiveness clauses (DESIGN §4 C15)."""
+import re
 from qlib import (AnalysisBroken, strip, isnode, walk, is_call, norm_cmp, var_ref, is_null, const_val, short, call_obj,
                   expr_key, field_name, is_this_field)
 from rules.common import (core_and_neg, tnode, other, cpos, npos, branches_on_call, in_subtree, need_some, straight_after,
@@ -42,6 +43,8 @@ def run(ctx):
     for f in facts.need(RS + "_calculate_initial_rotation_tp", "A", floor=2):
         r3_initial(ctx, facts, f)
     r4_no_remembered_state(ctx, facts)
+    r5_datetime_suffix(ctx, facts)
+    r6_daily_time_parser(ctx, facts)
 
 
 def freq_tests(f, g):
@@ -453,3 +456,175 @@ def r4_no_remembered_state(ctx, facts):
                    "no result is remembered across calls%s" % ("" if not state else
                    " except in %s, and the test on it compares every parameter (not compared: %s)" % (sorted(state.values()), missing)), fn=f)
     ctx.floor("C15.R4", "name / rotation-point helpers", n, 8)
+
+
+def r5_datetime_suffix(ctx, facts):
+    """R5: the date / date-time suffix of a rotated file is strftime of the instant handed in, in the zone handed in:
+    format_datetime_string converts timestamp_ns / 1e9 with gmtime_rs exactly on 'time_zone is GmtTime' and with localtime_rs otherwise
+    (every Timezone enumerator is covered), into the tm that strftime then reads, with the caller's pattern; the returned string is
+    built from the buffer strftime wrote. Callers in RotatingSink pass the sink's configured zone."""
+    f = facts.need("quill::FileSink::format_datetime_string", "A")[0]
+    g = f.g
+    ts, tz, pat = [p["did"] for p in f.rec["params"][:3]]
+    inits = f.var_inits()
+    secs = [v for v, i in inits.items() if isnode(i) and any(x["k"] == "BinaryOperator" and x["op"] == "/" and var_ref(strip(x["lhs"], casts=True)) == ts and
+                                                              const_val(x["rhs"]) == 1000000000 for x in walk(i))]
+    gm = f.calls(r"detail::gmtime_rs$")
+    lo = f.calls(r"detail::localtime_rs$")
+    sf = f.calls(r"^(std::)?strftime$")
+
+    def addr(e):
+        e = strip(e, casts=True)
+        return var_ref(strip(e["sub"], casts=True)) if isnode(e) and e["k"] == "UnaryOperator" and e.get("op") == "&" else None
+    tms = {addr(c["args"][1]) for c in gm + lo}
+    same = bool(secs) and bool(gm) and bool(lo) and bool(sf) and len(tms) == 1 and None not in tms and \
+        all(addr(c["args"][0]) in secs for c in gm + lo) and all(addr(c["args"][3]) in tms for c in sf)
+    zone = []
+    for bid, b in g.blocks.items():
+        c = g.term_cond(bid)
+        nc = norm_cmp(c) if c is not None else None
+        if nc and nc[0] in ("==", "!=") and any(var_ref(x) == tz for x in walk(c)):
+            en = [x["name"].split("::")[-1] for x in walk(c) if x["k"] == "DeclRefExpr" and x.get("dk") == "EnumConstant"]
+            if en == ["GmtTime"]:
+                zone.append((bid, "T" if nc[0] == "==" else "F"))        # label of 'GmtTime'
+            elif en == ["LocalTime"]:
+                zone.append((bid, "F" if nc[0] == "==" else "T"))
+    gp, lp, sp = npos(f, gm), npos(f, lo), npos(f, sf)
+    en = facts.enum("quill::Timezone", "A")
+    two = bool(en) and sorted(n for (n, v) in en["enumerators"]) == ["GmtTime", "LocalTime"]
+    by_zone = bool(zone) and bool(gp) and bool(lp) and two and \
+        not g.exists_path([g.entry_node], gp, avoid_edges=zone) and \
+        not g.exists_path([g.entry_node], lp, avoid_edges=[(b, other(l)) for (b, l) in zone]) and \
+        not g.exists_path([g.entry_node], sp, avoid_nodes=gp + lp)
+    patt = bool(sf) and all(any(var_ref(x) == pat for x in walk(c["args"][2])) for c in sf)
+    bufs = {var_ref(strip(c["args"][0], casts=True)) for c in sf}
+    rets = [g.node_ast(r) for r in g.return_nodes()]
+    # (a return that hands back a value remembered in a static / thread-local variable is R4's business: keyed on every parameter)
+    memo = {v["did"] for x in f.walk() if x["k"] == "DeclStmt" for v in x.get("decls") or [] if v.get("static") or v.get("tls")}
+    fresh = [(p, g.node_ast(p)) for p in g.return_nodes() if not any(var_ref(x) in memo for x in walk(g.node_ast(p).get("val")))]
+    from_buf = bool(fresh) and len(bufs) == 1 and None not in bufs and all(any(var_ref(x) in bufs for x in walk(r.get("val"))) for (p, r) in fresh) and \
+        all(g.dominates(sp, p) for (p, r) in fresh)
+    ctx.ob("C15.R5a", "FileSink::format_datetime_string:zone-and-instant", same and by_zone,
+           "seconds = timestamp_ns / 1e9 are converted into one tm by gmtime_rs exactly on the GmtTime outcome and by localtime_rs on the "
+           "other (Timezone has exactly these two enumerators: %s), before strftime reads that tm (same operands: %s, by zone: %s)" % (two, same, by_zone), fn=f)
+    ctx.ob("C15.R5b", "FileSink::format_datetime_string:pattern-and-result", patt and from_buf,
+           "strftime is given the caller's pattern and the returned string is built from the buffer it wrote (%s, %s)" % (patt, from_buf), fn=f)
+    n = 0
+    for r in facts.fn(RS + "_rotate_files", "A") + facts.fn(RS + "_clean_and_recover_files", "A"):
+        for c in r.calls(r"FileSink::format_datetime_string$"):
+            n += 1
+            ok = is_call(strip(c["args"][1], casts=True), r"FileSinkConfig::timezone$")
+            ctx.ob("C15.R5c", "%s:suffix-in-the-sink's-zone" % r.name.replace("quill::", ""), ok,
+                   "the suffix is formatted in the sink's configured time zone (_config.timezone())", fn=r, loc=c.get("loc", ""))
+    ctx.floor("C15.R5c", "format_datetime_string call sites in RotatingSink", n, 6)
+
+
+def _rel(cond_leaf):
+    """(op, lhs, rhs) for a built-in or overloaded relational / equality test (negations folded in); None otherwise"""
+    from qlib import CMP_NEG
+    c, neg = core_and_neg(cond_leaf)
+    c = strip(c, casts=True)
+    op, l, r = None, None, None
+    if isnode(c) and c["k"] == "BinaryOperator" and c["op"] in ("<", "<=", ">", ">=", "==", "!="):
+        op, l, r = c["op"], c["lhs"], c["rhs"]
+    elif isnode(c) and c["k"] == "CXXOperatorCallExpr" and len(c.get("args") or []) == 2:
+        m = re.search(r"::operator(<=|>=|==|!=|<|>)(?:<.*>)?$", c.get("callee") or "")   # (short() cannot be used on operator< / operator>)
+        if m:
+            op, l, r = m.group(1), c["args"][0], c["args"][1]
+    if op is None:
+        return None
+    if neg:
+        op = CMP_NEG[op]
+    return op, l, r
+
+
+def r6_daily_time_parser(ctx, facts):
+    """R6: 'HH:MM' is read as hours HH and minutes MM. The text is split at every ':' (search from 0, resume one past the separator, the
+    remainder is the last piece), anything but two pieces of two characters each is refused, the pair returned is
+    (hours{stoi(piece 0)}, minutes{stoi(piece 1)}) and a value above 23 hours or 59 minutes is refused. A parser of another shape is
+    not decided (analysis broken)."""
+    f = facts.need("quill::RotatingFileSinkConfig::_parse_daily_rotation_time", "A")[0]
+    g = f.g
+    text = f.rec["params"][0]["did"]
+    site = "RotatingFileSinkConfig::_parse_daily_rotation_time"
+    finds = [c for c in f.calls(r"basic_string<.*>::find$") if var_ref(call_obj(c)) == text and const_val(c["args"][0]) == 58]
+    loops = [n for n in f.walk() if n["k"] in ("WhileStmt", "ForStmt") and any(in_subtree(c, n.get("cond")) for c in finds)]
+    if not finds or len(loops) != 1:
+        raise AnalysisBroken(site + ": no 'find(':', start)' split loop — a parser of this shape is not decided")
+    lp = loops[0]
+    decls = f.var_decls()
+    startv = var_ref(strip(finds[0]["args"][1], casts=True)) if len(finds[0]["args"]) > 1 else None
+    endv = None
+    for x in walk(lp["cond"]):
+        if x["k"] == "BinaryOperator" and x["op"] == "=" and any(y is finds[0] for y in walk(x["rhs"])):
+            endv = var_ref(x["lhs"])
+    ck = _rel(lp["cond"])
+    cont_while_found = ck is not None and ck[0] == "!=" and any(y["k"] == "DeclRefExpr" and y.get("name", "").endswith("npos") for y in walk(lp["cond"]))
+    start0 = startv is not None and const_val((decls.get(startv) or {}).get("init")) == 0
+    resume = [x for x in walk(lp.get("body")) if x["k"] == "BinaryOperator" and x["op"] == "=" and var_ref(x["lhs"]) == startv]
+    resume_ok = len(resume) == 1 and isnode(strip(resume[0]["rhs"], casts=True)) and strip(resume[0]["rhs"], casts=True)["k"] == "BinaryOperator" and \
+        strip(resume[0]["rhs"], casts=True)["op"] == "+" and var_ref(strip(strip(resume[0]["rhs"], casts=True)["lhs"], casts=True)) == endv and \
+        const_val(strip(resume[0]["rhs"], casts=True)["rhs"]) == 1
+    subs = [c for c in f.calls(r"basic_string<.*>::substr$") if var_ref(call_obj(c)) == text]
+    in_loop = [c for c in subs if in_subtree(c, lp.get("body"))]
+    after = [c for c in subs if not in_subtree(c, lp)]
+
+    def real_args(c):
+        return [a for a in c["args"] if not (isnode(a) and a["k"] == "CXXDefaultArgExpr")]
+    piece_ok = len(in_loop) == 1 and len(real_args(in_loop[0])) == 2 and var_ref(strip(real_args(in_loop[0])[0], casts=True)) == startv and \
+        isnode(strip(real_args(in_loop[0])[1], casts=True)) and strip(real_args(in_loop[0])[1], casts=True).get("op") == "-" and \
+        var_ref(strip(strip(real_args(in_loop[0])[1], casts=True)["lhs"], casts=True)) == endv and var_ref(strip(strip(real_args(in_loop[0])[1], casts=True)["rhs"], casts=True)) == startv
+    last_ok = len(after) == 1 and len(real_args(after[0])) == 1 and var_ref(strip(real_args(after[0])[0], casts=True)) == startv
+    pushes = [c for c in f.calls(r"std::vector<std::basic_string.*>::(push_back|emplace_back)$")]
+    push_in = [c for c in pushes if in_subtree(c, lp.get("body"))]
+    push_after = [c for c in pushes if not in_subtree(c, lp)]
+    pushed = len(push_in) == 1 and len(push_after) == 1 and not g.exists_path(g.positions(after[0]) if after else [g.entry_node], [g.exit_node], avoid_nodes=npos(f, push_after) + npos(f, [x for x in f.walk() if x["k"] == "CXXThrowExpr"]))
+    ctx.ob("C15.R6a", site + ":split-at-every-colon", cont_while_found and start0 and resume_ok and piece_ok and last_ok and pushed,
+           "the search starts at 0 (%s), continues while a ':' was found (%s), resumes one past it (%s); each piece is substr(start, end - "
+           "start) (%s), the remainder substr(start) (%s), and both are appended to the piece list (%s)"
+           % (start0, cont_while_found, resume_ok, piece_ok, last_ok, pushed), fn=f)
+    # refusals: size tests against 2
+    thr = npos(f, [x for x in f.walk() if x["k"] == "CXXThrowExpr"])
+    two = []
+    for bid, b in g.blocks.items():
+        c = g.term_cond(bid)
+        rk = _rel(c) if c is not None else None
+        if rk and rk[0] in ("==", "!=") and any(is_call(y, r"::(size|length)$") for y in walk(c)) and 2 in (const_val(rk[1]), const_val(rk[2])):
+            lab = "T" if rk[0] == "!=" else "F"
+            kind_ = "pieces" if any(is_call(y, r"std::vector<.*>::size$") for y in walk(c)) else "characters"
+            leads = not g.exists_path([y for (y, l2) in g.succ.get(tnode(g, bid), ()) if l2 == lab], [g.exit_node], avoid_nodes=thr)
+            two.append((kind_, leads))
+    ok_b = sorted(k for (k, l_) in two) == ["characters", "pieces"] and all(l_ for (k, l_) in two)
+    ctx.ob("C15.R6b", site + ":two-pieces-of-two-characters", ok_b,
+           "anything but exactly two pieces, or a piece that is not exactly two characters long, ends in a throw (%s)" % two, fn=f)
+    # the pair
+    mk = [c for c in f.calls(r"^std::make_pair")]
+    ok_c = False
+    if len(mk) == 1 and len(mk[0]["args"]) == 2:
+        def part(a, unit, idx):
+            st = [x for x in walk(a) if is_call(x, r"^std::stoi$")]
+            ix = [const_val(y["args"][1]) for x in st for y in walk(x) if y["k"] == "CXXOperatorCallExpr" and short(y.get("callee") or "").endswith("operator[]")]
+            a_ = strip(a, casts=True)
+            return len(st) == 1 and ix == [idx] and unit in (a_.get("ty") or "")
+        ok_c = part(mk[0]["args"][0], "hours", 0) and part(mk[0]["args"][1], "minutes", 1)
+    rets = [g.node_ast(q) for q in g.return_nodes()]
+    inits = f.var_inits()
+    res_ok = bool(rets) and bool(mk) and all(any(y is mk[0] for y in walk(inits.get(var_ref(strip(r.get("val"), casts=True))) or r.get("val"))) for r in rets)
+    ctx.ob("C15.R6c", site + ":hours-then-minutes", ok_c and res_ok,
+           "the pair returned is (hours{stoi(piece 0)}, minutes{stoi(piece 1)}) (%s, returned: %s)" % (ok_c, res_ok), fn=f)
+    # range
+    lim = {}
+    for bid, b in g.blocks.items():
+        c = g.term_cond(bid)
+        rk = _rel(c) if c is not None else None
+        if not rk or rk[0] not in ("<", "<=", ">", ">="):
+            continue
+        mem = [y.get("mname") for y in walk(rk[1]) if y["k"] == "MemberExpr" and y.get("mname") in ("first", "second")]
+        cv = [const_val(y) for y in walk(rk[2]) if const_val(y) is not None]
+        if len(mem) == 1 and cv and rk[0] in (">", ">="):
+            bound = cv[0] + (1 if rk[0] == ">" else 0)          # smallest refused value
+            leads = not g.exists_path([y for (y, l2) in g.succ.get(tnode(g, bid), ()) if l2 == "T"], [g.exit_node], avoid_nodes=thr)
+            lim[mem[0]] = (bound, leads)
+    ok_d = lim.get("first") == (24, True) and lim.get("second") == (60, True)
+    ctx.ob("C15.R6d", site + ":range", ok_d,
+           "an hour value of 24 or more and a minute value of 60 or more end in a throw; 23 and 59 are accepted (smallest refused: %s)" % lim, fn=f)
